@@ -250,6 +250,10 @@ func (run *checkRun) verifyFn(s *FnSpec) *fnResult {
 	})
 	fr.obligs = obligs
 	fr.err = err
+	if err == nil && len(ex.unbound) > 0 {
+		// the other obligations are still solved; the function stays undecided for the clauses that could not be bound
+		fr.err = fmt.Errorf("%s", strings.Join(ex.unbound, "; "))
+	}
 	fr.notes = sortedStrings(ex.notes)
 	for u := range ex.usedContracts {
 		fr.used = append(fr.used, u)
